@@ -2,12 +2,12 @@
 EXTENDS Integers, Sequences, TLC, Json, IOUtils
 CONSTANTS Vouchers, HookReturnsAck
 Trace == ndJsonDeserialize(IOEnv.TRACE_FILE)
-VARIABLES l, enabled, vbal, esc, sup, tok, registered, pairon, ext, xreg, mx, last
+VARIABLES l, enabled, vbal, esc, sup, tok, registered, pairon, ext, xreg, xbad, mx, last
 AmtClasses == {}
 RecvClasses == {}
 INSTANCE ICS20
 ln(k) == Trace[k]
-TInit == l = 0 /\ enabled = TRUE /\ vbal = <<>> /\ esc = <<>> /\ sup = <<>> /\ tok = <<>> /\ registered = <<>> /\ pairon = <<>> /\ ext = <<>> /\ xreg = FALSE /\ mx = 0 /\ last = [act |-> "None", res |-> "ok"]
+TInit == l = 0 /\ enabled = TRUE /\ vbal = <<>> /\ esc = <<>> /\ sup = <<>> /\ tok = <<>> /\ registered = <<>> /\ pairon = <<>> /\ ext = <<>> /\ xreg = FALSE /\ xbad = FALSE /\ mx = 0 /\ last = [act |-> "None", res |-> "ok"]
 Report(k, name, holds) == holds \/ PrintT(<<"VIOL", k, name>>)
 IsStep(k) == ln(k).ev # "Reset"
 A(k) == ln(k).args
@@ -33,7 +33,7 @@ C_Step(k) ==
     [] ln(k).ev = "Register" -> RegisterEff(D(k)) /\ (ln(k).res = "ok") = RegisterOK(D(k))
     [] ln(k).ev = "Toggle" -> ToggleEff(D(k)) /\ (ln(k).res = "ok") = ToggleOK(D(k))
     [] ln(k).ev = "Param" -> ParamEff(A(k).on)
-    [] ln(k).ev = "RegisterExt" -> RegisterExtEff /\ (ln(k).res = "ok") = RegisterExtOK
+    [] ln(k).ev = "RegisterExt" -> RegisterExtEff(A(k).bad) /\ (ln(k).res = "ok") = RegisterExtOK
     [] ln(k).ev = "AddExt" -> AddExtEff(D(k)) /\ (ln(k).res = "ok") = AddExtOK(D(k))
     [] ln(k).ev = "Fund" -> FundEff(A(k).n)
     [] OTHER -> FALSE
@@ -42,7 +42,7 @@ F(k, f) == [d \in Vouchers |-> ln(k).st[d][f]]
 TNext == LET k == l + 1 IN
   /\ l < Len(Trace) /\ l' = k
   /\ enabled' = ln(k).st.enabled /\ vbal' = F(k, "vbal") /\ esc' = F(k, "esc") /\ sup' = F(k, "sup") /\ tok' = F(k, "tok")
-  /\ registered' = F(k, "registered") /\ pairon' = F(k, "pairon") /\ ext' = F(k, "ext") /\ xreg' = ln(k).st.xreg /\ mx' = ln(k).st.mx
+  /\ registered' = F(k, "registered") /\ pairon' = F(k, "pairon") /\ ext' = F(k, "ext") /\ xreg' = ln(k).st.xreg /\ xbad' = ln(k).st.xbad /\ mx' = ln(k).st.mx
   /\ last' = [act |-> ln(k).ev, res |-> ln(k).res]
   /\ Judge(k) /\ Conform(k)
 TSpec == TInit /\ [][TNext]_<<l, vars>>
